@@ -434,6 +434,215 @@ def coq_core(t, n, s, h, p, g):
                                                  coq_opt(h, coq_str), coq_opt(p, coq_z), coq_bool(g))
 
 
+# ----------------------------------------------------------------------------
+# histories: one long-lived process, the tree changes between listings
+# ----------------------------------------------------------------------------
+HCONFIG = dict(CONFIG, **{"handlers.dir.DirHandler": {"cachetime": "0"}})
+HPROTOS = ["http", "gemini", "gopherplus", "spartan", "wap", "sgopher", "https"]
+
+
+def h_resolve(nodes, path, depth=0):
+    """node a path leads to, following symbolic links (None when it leads nowhere)"""
+    n = nodes.get(path)
+    if n is None or depth > 8:
+        return None
+    if n["kind"] == "symlink":
+        return h_resolve(nodes, posixpath.normpath(posixpath.join(posixpath.dirname(path), n["target"])), depth + 1)
+    return n
+
+
+def h_tree(nodes):
+    t = []
+    for path in sorted(nodes):
+        n = nodes[path]
+        e = {"path": path, "kind": n["kind"]}
+        if n["kind"] == "file":
+            e["data"] = lat(n["data"])
+        elif n["kind"] == "symlink":
+            e["target"] = n["target"]
+        if n["kind"] != "symlink":
+            e["mtime"] = 1_700_000_000
+        t.append(e)
+    return t
+
+
+def h_existing(nodes):
+    ex = {""}
+    for path in nodes:
+        if h_resolve(nodes, path) is not None:
+            ex.add("/" + path)
+    return sorted(ex)
+
+
+def history_leg(chk, rng, thorough, hit, stats, scases, sel_cases):
+    """Returns Coq jobs (preamble, cases, keys).  Every history: list, then mutations of the gophermap of ONE directory
+    (created, replaced, removed, a symbolic link whose target appears / disappears, unrelated files touched), the
+    directory's mtime put back after the mutation or not, and a listing through 2-3 protocols after every mutation.
+    Oracles: (1) the same tree state served by a process that never served anything; (2) the documents' reading when a
+    regular file `gophermap` is in the directory at request time; K: handler selection and Gopher0 menu vs the model."""
+    nhist = 40 if thorough else 12
+    histories = []
+    for hi in range(nhist):
+        hdir = ["h", "", "p/h"][hi % 3]
+        hp = hdir + "/" if hdir else ""
+        up = "../" * (hdir.count("/") + 1) if hdir else ""
+        sel = "/" + hdir if hdir else "/"
+        nodes = {}
+        for d in {"shared", "other", hdir} - {""}:
+            parts = d.split("/")
+            for k in range(1, len(parts) + 1):
+                nodes["/".join(parts[:k])] = {"kind": "dir"}
+        nodes["shared/keep.txt"] = {"kind": "file", "data": b"keep\n"}
+        nodes["other/o.txt"] = {"kind": "file", "data": b"other\n"}
+        for name in ("a.txt", "b b.txt", "about.txt", "sub/s.txt"):
+            if "/" in name:
+                nodes[hp + "sub"] = {"kind": "dir"}
+            nodes[hp + name] = {"kind": "file", "data": b"text\n"}
+        script = None
+        if hi == 0:      # written right after a listing, nothing restored (same wall-clock second)
+            script = [("create", False)]
+        elif hi == 1:    # `gophermap` is a dangling symbolic link from the start; its target is published later
+            nodes[hp + "gophermap"] = {"kind": "symlink", "target": up + "shared/menu"}
+            script = [("create_target", False), ("remove_target", False), ("create_target", True)]
+        elif hi == 2:
+            script = [("create", True), ("remove", True), ("create", True), ("replace", True), ("touch", True), ("remove", False)]
+        steps, snaps = [], []
+        nmut = len(script) if script else rng.randrange(4, 9 if thorough else 7)
+        mapdata = [None]
+        counter = [0]
+
+        def add_list():
+            protos = ["gopher"] + rng.sample(HPROTOS, rng.choice([1, 2]))
+            reqs, rm = [], []
+            for pr in protos:
+                data, tls = gen.request_bytes(pr, sel)
+                reqs.append({"data": gen.lat(data), "tls": tls})
+                rm.append((pr, data, tls))
+            steps.append({"op": "list", "requests": reqs})
+            node = h_resolve(nodes, hp + "gophermap")
+            snaps.append({"step": len(steps) - 1, "protos": rm, "tree": h_tree(nodes), "existing": h_existing(nodes),
+                          "has_map": node is not None and node["kind"] == "file",
+                          "map": node["data"] if node is not None and node["kind"] == "file" else None})
+
+        def new_map():
+            return gen_map(rng, "wf", 0, False)
+
+        add_list()
+        for mi in range(nmut):
+            gm = nodes.get(hp + "gophermap")
+            tgt = None
+            if gm is not None and gm["kind"] == "symlink":
+                tgt = posixpath.normpath(posixpath.join(hdir, gm["target"]))
+            if script:
+                act, keep = script[mi]
+            else:
+                keep = rng.random() < 0.6
+                if gm is None:
+                    act = rng.choice(["create", "create", "link", "touch"])
+                elif gm["kind"] == "file":
+                    act = rng.choice(["replace", "remove", "remove", "touch"])
+                elif tgt in nodes:
+                    act = rng.choice(["remove_target", "remove_target", "replace_target", "remove", "touch"])
+                else:
+                    act = rng.choice(["create_target", "create_target", "remove", "touch"])
+            if act in ("create", "replace"):
+                d = new_map()
+                nodes[hp + "gophermap"] = {"kind": "file", "data": d}
+                steps.append({"op": "write", "path": hp + "gophermap", "data": lat(d), "keep_mtime": keep})
+            elif act == "remove":
+                del nodes[hp + "gophermap"]
+                steps.append({"op": "remove", "path": hp + "gophermap", "keep_mtime": keep})
+            elif act == "link":
+                counter[0] += 1
+                target = up + "shared/menu%d" % counter[0]
+                nodes[hp + "gophermap"] = {"kind": "symlink", "target": target}
+                steps.append({"op": "symlink", "path": hp + "gophermap", "target": target, "keep_mtime": keep})
+            elif act in ("create_target", "replace_target"):
+                d = new_map()
+                nodes[tgt] = {"kind": "file", "data": d}
+                steps.append({"op": "write", "path": tgt, "data": lat(d), "keep_mtime": keep})
+            elif act == "remove_target":
+                del nodes[tgt]
+                steps.append({"op": "remove", "path": tgt, "keep_mtime": keep})
+            else:
+                counter[0] += 1
+                name = hp + rng.choice(["a.txt", "new%d.txt" % counter[0]])
+                nodes[name] = {"kind": "file", "data": b"touched %d\n" % counter[0]}
+                steps.append({"op": "write", "path": name, "data": "touched %d\n" % counter[0], "keep_mtime": keep})
+            steps[-1]["what"] = act
+            add_list()
+        histories.append({"selector": sel, "tree0": snaps[0]["tree"], "steps": steps, "snaps": snaps})
+
+    jobs = [{"op": "gm_history", "tree": h["tree0"], "config": HCONFIG, "steps": h["steps"]} for h in histories]
+    hres = impl_run_parallel(jobs, chunks=min(len(jobs), 6))
+    # the reference: a separate interpreter whose children each serve ONE tree state and exit
+    fresh_jobs = [{"op": "gm_fresh", "states": [{"tree": sn["tree"], "config": HCONFIG,
+                                                 "requests": h["steps"][sn["step"]]["requests"]} for sn in h["snaps"]]}
+                  for h in histories]
+    fres = impl_run_parallel(fresh_jobs, chunks=min(len(fresh_jobs), 6))
+    for r in hres + fres:
+        if not r["ok"]:
+            raise RuntimeError(r["err"] + "\n" + r.get("tb", ""))
+    coqjobs = []
+    stats.update({"histories": len(histories), "history_listings": 0, "history_mutations": 0, "history_menu_cases": 0})
+    for h, r, fr in zip(histories, hres, fres):
+        pre, cases, keys = [PRE], [], []
+        stats["history_mutations"] += sum(1 for st in h["steps"] if st["op"] != "list")
+        for si, (sn, ref) in enumerate(zip(h["snaps"], fr["res"])):
+            if not ref.get("ok"):
+                raise RuntimeError("fresh reference failed: " + str(ref.get("err")))
+            got = r["res"]["steps"][sn["step"]]["results"]
+            upto = h["steps"][:sn["step"] + 1]
+            for qi, ((proto, data, tls), o, f) in enumerate(zip(sn["protos"], got, ref["results"])):
+                stats["history_listings"] += 1
+                chk.count(("history", h["selector"], si, proto, repr(upto)), nontrivial=si > 0)
+                a = gen.mask_times(o["out"].encode("latin-1"))
+                b = gen.mask_times(f["out"].encode("latin-1"))
+                buck = any("/BuckGophermapHandler]" in m for m in o["log"])
+                fbuck = any("/BuckGophermapHandler]" in m for m in f["log"])
+                replay = {"kind": "history", "selector": h["selector"], "protocol": proto, "request_latin1": gen.lat(data), "tls": tls,
+                          "tree": h["tree0"], "config": HCONFIG,
+                          "steps": [dict(st, requests=None) if st["op"] == "list" else st for st in upto],
+                          "state_tree": sn["tree"], "gophermap_latin1": lat(sn["map"]) if sn["map"] is not None else "",
+                          "gophermap_present_at_request_time": sn["has_map"],
+                          "long_lived_process": {"response_latin1": o["out"][:1500], "log": o["log"][-2:], "exception": o["exc"]},
+                          "fresh_process": {"response_latin1": f["out"][:1500], "log": f["log"][-2:], "exception": f["exc"]}}
+                if a != b or o["exc"] != f["exc"]:
+                    tag = "stale-gophermap-presence" if buck != fbuck else ("stale-gophermap-content" if buck else "history-divergence")
+                    hit(tag, dict(replay, what="after the tree changed, a long-lived server process lists the directory differently "
+                                               "from a process started on the same tree state"))
+                    continue
+                # the documents: a regular file `gophermap` in the directory at request time drives the listing
+                if sn["has_map"]:
+                    lines = [u(l) for l in split_lines(sn["map"])]
+                    ds, items = descriptions(proto, o["out"].encode("latin-1"))
+                    want = [as_rendered(proto, twin_item(h["selector"], ln)[1]) for ln in lines]
+                    if ds != want:
+                        hit("stale-gophermap-presence" if not buck else f"history-spec-mismatch:{proto}",
+                            dict(replay, what="the directory holds a gophermap but is not listed line for line from it",
+                                 rendered=ds, documented=want))
+                        continue
+                if proto == "gopher":
+                    # K: handler selection and, when chosen, the Gopher0 menu
+                    src = next((p for p in o["opened"] if p.endswith("/gophermap")), None)
+                    scases.append("(((0, %s), %s), (%s, %s))" % (coq_bool(sn["has_map"]), coq_str(h["selector"]), coq_bool(buck),
+                                                              coq_opt(src, coq_str)))
+                    sel_cases.append((h["selector"], 0, sn["has_map"], "history"))
+                    if sn["has_map"] and buck:
+                        k = len(pre)
+                        pre.append("Definition hx%d : list str := %s." % (k, coq_list([coq_str(x) for x in sn["existing"]])))
+                        pre.append("Definition hc%d : str := %s." % (k, coq_str(u(sn["map"]))))
+                        for fixed in (True, False):
+                            cases.append("(%s, (((%s, false), (hc%d, hx%d)), (obs_menu %s)))" % (
+                                coq_bool(fixed), coq_str(h["selector"]), k, k, coq_str(u(o["out"].encode("latin-1")))))
+                            keys.append((fixed, dict(replay, is_mapfile=False, response_latin1=o["out"][:1500])))
+                        stats["history_menu_cases"] += 1
+        if cases:
+            coqjobs.append(("\n".join(pre), cases, keys))
+    return coqjobs
+
+
+
 def run(tier):
     chk = Check("C09", tier)
     chk.proofs(extra_files=["Corr/K09.v"])
@@ -706,6 +915,11 @@ def run(tier):
                                   "response_latin1": out["out"][:200]}
         wjobs.append(("\n".join(pre), wcases, wkeys))
 
+    # ---------------- histories in one long-lived process ----------------
+    t_h0 = _time.time()
+    wjobs.extend(history_leg(chk, rng, thorough, hit, stats, scases, sel_cases))
+    chk.notes["seconds_history_leg"] = round(_time.time() - t_h0, 1)
+
     # ---------------- K: model in Coq vs implementation ----------------
     import concurrent.futures
     t_coq0 = _time.time()
@@ -792,6 +1006,9 @@ def run(tier):
         "HTML/WML/gemini/spartan renderings are read back by the harness (description texts only); their markup is C06/C13's subject",
         "well-formed (wf_gmline): one line, no white space at either end of any field or of an info line, 2..4 tab-separated fields, "
         "type + NON-EMPTY description, port empty or <= 4300 ASCII digits",
+        "history leg: DirHandler's own listing cache (.cache.pygopherd.dir) is switched off (cachetime = 0; C10's subject) so that "
+        "only gophermap handling is observed; the reference is the same tree state served by a freshly forked process that never "
+        "served a request; modification times are masked when responses are compared",
         "both model variants are evaluated: 'repaired' (relative links of a *.gophermap file resolved against the directory the file "
         "is in; the positive theorems) and 'pinned' (against the file's own selector); K holds when the code matches the repaired "
         "variant, or matches the pinned one and the oracle exhibited the difference on the real code",
@@ -806,6 +1023,26 @@ def replay(path):
     with open(path) as f:
         rp = json.load(f)
     sel = rp.get("selector")
+    if rp.get("kind") == "history":
+        steps = [dict(st) for st in rp["steps"]]
+        req = [{"data": rp["request_latin1"], "tls": rp.get("tls", False)}]
+        for st in steps:
+            if st["op"] == "list":
+                st["requests"] = req
+        r1, = impl_run([{"op": "gm_history", "tree": rp["tree"], "config": rp["config"], "steps": steps}])
+        r2, = impl_run([{"op": "gm_fresh", "states": [{"tree": rp["state_tree"], "config": rp["config"], "requests": req}]}])
+        if not (r1["ok"] and r2["ok"]):
+            print(r1.get("err"), r2.get("err"))
+            return 2
+        a = r1["res"]["steps"][-1]["results"][0]
+        b = r2["res"][0]["results"][0]
+        differs = gen.mask_times(a["out"].encode("latin-1")) != gen.mask_times(b["out"].encode("latin-1"))
+        print(json.dumps({"steps": [st.get("what", st["op"]) + (" (directory mtime put back)" if st.get("keep_mtime") else "")
+                                    for st in steps],
+                          "long_lived_process": {"response_latin1": a["out"], "log": a["log"][-2:]},
+                          "fresh_process_same_tree": {"response_latin1": b["out"], "log": b["log"][-2:]},
+                          "still_differs": differs}, indent=1, ensure_ascii=True))
+        return 1 if differs else 0
     reqs = []
     if rp.get("request_latin1") is not None:
         reqs.append({"data": rp["request_latin1"], "tls": rp.get("tls", False)})
